@@ -2,3 +2,5 @@ pub mod queue;
 pub mod c06;
 pub mod c10;
 pub mod c14;
+pub mod c19;
+pub mod c15;
